@@ -71,17 +71,18 @@ theorem commitUsage_spec (use : NodeRes) (ws : List Workload) (hu : use.cpuMap.k
       · right; exact ⟨w', List.mem_cons_of_mem _ hw', h⟩
     · rw [i4]; simp only [NodeRes.add, List.map_cons, List.sum_cons]; omega
 
-/-- **commit_valid** (nodes without NUMA topology): committing any prefix of the plans returned by
-    `GetCPUPlans` to a valid node whose memory usage fits leaves a node that `Validate` accepts and
-    whose memory usage still fits. -/
-theorem commit_valid_nonnuma (info : NodeInfo) (origin : CpuMap) (B maxShare : Int) (req : Req) (order : List String)
+/-- committing any prefix of the plans returned by `GetCPUPlans` to a valid node whose memory usage
+    fits leaves a node that `Validate` accepts and whose memory usage still fits — given the NUMA block
+    of `Validate` for the new state (`hV3`; trivial without NUMA topology, `commit_numa_clause` otherwise) -/
+theorem commit_valid_core (info : NodeInfo) (origin : CpuMap) (B maxShare : Int) (req : Req) (order : List String)
     (ps : List CpuPlan) (n : Nat) (ws : List Workload) (hB : 1 ≤ B) (hck : info.cap.cpuMap.keys.Nodup) (huk : info.use.cpuMap.keys.Nodup)
-    (hord : order.Nodup) (hval : info.validate = true) (hnuma : info.cap.numa = []) (hmem0 : 0 ≤ req.mem)
+    (hord : order.Nodup) (hval : info.validate = true) (hnk : (info.cap.numa.map (·.1)).Nodup)
+    (hV3 : ({ info with use := commitUsage info.use ws } : NodeInfo).validateNuma = true) (hmem0 : 0 ≤ req.mem)
     (hmv : memValid info = true)
     (h : getCPUPlans info origin B maxShare req order = .ok ps)
     (hws1 : ws.map (·.cpuMap) = (ps.map (·.cpuMap)).take n) (hws2 : ∀ w ∈ ws, w.memReq = req.mem) :
     ∃ info', commit info ws = .ok info' ∧ memValid info' = true := by
-  obtain ⟨ps', h', hu, hok⟩ := getCPUPlans_spec info origin B hB maxShare req order hord (by rw [hnuma]; simp) hck
+  obtain ⟨ps', h', hu, hok⟩ := getCPUPlans_spec info origin B hB maxShare req order hord hnk hck
   rw [h] at h'; cases h'
   have hfm := getCPUPlans_fit_memory info origin B maxShare req order ps h
   have hpn := piecesRequest_nonneg req B
@@ -109,8 +110,8 @@ theorem commit_valid_nonnuma (info : NodeInfo) (origin : CpuMap) (B maxShare : I
   obtain ⟨_, av⟩ := mapSub_spec info.cap.cpuMap info.use.cpuMap hck huk
   have hav : ∀ id, info.available.cpuMap.get id = info.cap.cpuMap.get id - info.use.cpuMap.get id := av
   -- validity of the old state, clause by clause
-  unfold NodeInfo.validate at hval
-  simp only [Bool.and_eq_true, Bool.not_eq_true', List.all_eq_true, decide_eq_true_eq, Bool.or_eq_true] at hval
+  unfold NodeInfo.validate NodeInfo.validateCpu at hval
+  simp only [Bool.and_eq_true, Bool.not_eq_true', List.all_eq_true, decide_eq_true_eq] at hval
   obtain ⟨⟨hv1, hv2⟩, _⟩ := hval
   have hused : ∀ id, usedBy ((ps.map (·.cpuMap)).take n) id ≤ usedBy (ps.map (·.cpuMap)) id ∧ 0 ≤ usedBy ((ps.map (·.cpuMap)).take n) id := by
     intro id
@@ -119,8 +120,10 @@ theorem commit_valid_nonnuma (info : NodeInfo) (origin : CpuMap) (B maxShare : I
   unfold commit
   have hvalid' : ({ info with use := commitUsage info.use ws } : NodeInfo).validate = true := by
     unfold NodeInfo.validate
-    simp only [Bool.and_eq_true, Bool.not_eq_true', List.all_eq_true, decide_eq_true_eq, Bool.or_eq_true]
-    refine ⟨⟨hv1, ?_⟩, Or.inl (by rw [hnuma]; rfl)⟩
+    rw [hV3, Bool.and_true]
+    unfold NodeInfo.validateCpu
+    simp only [Bool.and_eq_true, Bool.not_eq_true', List.all_eq_true, decide_eq_true_eq]
+    refine ⟨hv1, ?_⟩
     intro kv hkv
     obtain ⟨k, used⟩ := kv
     have hk : k ∈ (commitUsage info.use ws).cpuMap.keys := List.mem_map.mpr ⟨(k, used), hkv, rfl⟩
@@ -189,5 +192,17 @@ theorem commit_valid_nonnuma (info : NodeInfo) (origin : CpuMap) (B maxShare : I
   · have : req.mem = 0 := by omega
     rw [this]; omega
   · omega
+
+
+/-- nodes without NUMA topology -/
+theorem commit_valid_nonnuma (info : NodeInfo) (origin : CpuMap) (B maxShare : Int) (req : Req) (order : List String)
+    (ps : List CpuPlan) (n : Nat) (ws : List Workload) (hB : 1 ≤ B) (hck : info.cap.cpuMap.keys.Nodup) (huk : info.use.cpuMap.keys.Nodup)
+    (hord : order.Nodup) (hval : info.validate = true) (hnuma : info.cap.numa = []) (hmem0 : 0 ≤ req.mem)
+    (hmv : memValid info = true)
+    (h : getCPUPlans info origin B maxShare req order = .ok ps)
+    (hws1 : ws.map (·.cpuMap) = (ps.map (·.cpuMap)).take n) (hws2 : ∀ w ∈ ws, w.memReq = req.mem) :
+    ∃ info', commit info ws = .ok info' ∧ memValid info' = true :=
+  commit_valid_core info origin B maxShare req order ps n ws hB hck huk hord hval (by rw [hnuma]; simp)
+    (by unfold NodeInfo.validateNuma; simp [hnuma]) hmem0 hmv h hws1 hws2
 
 end Eru.CpuMem
